@@ -30,7 +30,7 @@ def _types(tier):
     return out
 
 
-def poly_case(name, k, outty, spec, rule, intypes, nocancel=False, base=None):
+def poly_case(name, k, outty, spec, rule, intypes, nocancel=False, base=None, single=None):
     """spec: lane -> Poly (over in-atoms) or T (term to match identically)"""
     def judge(ctx):
         res = []
@@ -50,7 +50,12 @@ def poly_case(name, k, outty, spec, rule, intypes, nocancel=False, base=None):
                 else:
                     foreign = L.deps(t) - L.deps(exp)
                     st = R.REFUTED if (foreign or _pure_sel(t)) else R.UNDECIDED
-                    res.append(R.ob(oid, rule, st, 'got %s ; expected %s' % (tm.show(t, 5), tm.show(exp, 5)),
+                    wtxt = ''
+                    if st == R.UNDECIDED:
+                        wit = L.pattern_witness(t, exp)
+                        if wit:
+                            st, wtxt = R.REFUTED, ' ; for the input bit patterns %s the lane is %#x, the definition %#x' % (wit[0], wit[1], wit[2])
+                    res.append(R.ob(oid, rule, st, 'got %s ; expected %s%s' % (tm.show(t, 5), tm.show(exp, 5), wtxt),
                                     where=R.where_of(it, t), kernel=k.source()))
                 continue
             try:
@@ -63,11 +68,39 @@ def poly_case(name, k, outty, spec, rule, intypes, nocancel=False, base=None):
                 a = ac.fpoly(t)
                 if a != L.abs_poly(got):
                     st, detail = R.REFUTED, 'lane equals the definition only after cancellation of extra terms: |terms| = %s vs definition %s' % (P.show_poly(a), P.show_poly(exp))
+            if st == R.PROVED and single is not None and outty.isfloat:
+                # a quotient is one correctly rounded operation: the lane must be the single division of the two lanes, not an algebraically equal form with a second
+                # rounding (multiplying by the reciprocal is off by an ulp for most divisors); refuted with inputs at which the two derived terms differ
+                want = single(lane)
+                if t is not want:
+                    wit = L.pattern_witness(t, want) or _quotient_witness(t, want)
+                    if wit:
+                        st, detail = R.REFUTED, ('equal to the definition only in exact arithmetic: the definition is the single division %s, the lane is %s; for the input bit patterns %s they '
+                                                 'give %#x and %#x' % (tm.show(want, 3), tm.show(t, 4), wit[0], wit[2], wit[1]))
+                    else:
+                        st, detail = R.UNDECIDED, 'not the single division %s: %s' % (tm.show(want, 3), tm.show(t, 4))
             if st == R.PROVED:
                 detail = 'normal form == ' + P.show_poly(exp, limit=6)
             res.append(R.ob(oid, rule, st, detail, where=R.where_of(it, t) if st != R.PROVED else None, kernel=k.source()))
         return res
     return R.Case(name, [k], judge)
+
+
+def _quotient_witness(t, want):
+    """inputs (every lane the same value, then the divisor) at which a quotient written with a second rounding differs from the single division"""
+    from laneflow import ceval as CE
+    ins = sorted({x for u in (t, want) for x in tm.walk(u) if x.op == 'in'}, key=lambda q: q.id)
+    if not ins or any(x.w not in (32, 64) for x in ins):
+        return None
+    for v in (49.0, 41.0, 3.0, 7.0, 10.0, 23.0):
+        env = {x: CE.f2b(x.w, v) for x in ins}
+        try:
+            a, b = CE.evaluate(t, env), CE.evaluate(want, env)
+        except CE.NoValue:
+            continue
+        if a != b:
+            return {tm.show(x): ('%#x' % e) for x, e in env.items()}, a, b
+    return None
 
 
 def _pure_sel(t):
@@ -186,6 +219,11 @@ def type_cases(T, Q, CFG=CFG):
                     ('div_sm', '*o = *s / *a;', 'ms', lambda l, t=tm_, sg=sg: _idiv(sg, L.in_term('s', sc, 0), L.in_term('a', t, l), sc)),
                     ('cdiv_ms', '*o = *a; *o /= *s;', 'ms', lambda l, t=tm_, sg=sg: _idiv(sg, L.in_term('a', t, l), L.in_term('s', sc, 0), sc)),
                 ]
+            fdivs = {}
+            if fl:
+                fdivs = {'div_ms': lambda l, t=tm_: tm.arith('fdiv', L.in_term('a', t, l), L.in_term('s', sc, 0)),
+                         'div_sm': lambda l, t=tm_: tm.arith('fdiv', L.in_term('s', sc, 0), L.in_term('a', t, l)),
+                         'cdiv_ms': lambda l, t=tm_: tm.arith('fdiv', L.in_term('a', t, l), L.in_term('s', sc, 0))}
             for opn, body, sig, spec in ew:
                 ps = [Par('o', tm_, False), Par('a', tm_)]
                 if sig == 'mm':
@@ -193,7 +231,7 @@ def type_cases(T, Q, CFG=CFG):
                 if sig == 'ms':
                     ps.append(Par('s', sc))
                 k = K('%s_%s_%s' % (opn, tm_.tag, tg), ps, body, CFG)
-                cs.append(poly_case('%s(%s)' % (opn, nm), k, tm_, spec, 'elementwise', None))
+                cs.append(poly_case('%s(%s)' % (opn, nm), k, tm_, spec, 'elementwise', None, single=fdivs.get(opn)))
             # square-only compound *= matrix
             if Cc == Rr:
                 k = K('cmul_mm_%s_%s' % (tm_.tag, tg), [Par('o', tm_, False), Par('a', tm_), Par('b', tm_)], '*o = *a; *o *= *b;', CFG)
